@@ -2,6 +2,7 @@ package ir
 
 import (
 	"go/token"
+	"go/types"
 	"reflect"
 
 	"golang.org/x/tools/go/ssa"
@@ -108,6 +109,11 @@ func not(t tri) tri {
 }
 
 // ThreadJumps applies the transformation to fn until nothing changes.
+// onlyTouched: functions in which a transformation took place; general trivial-phi
+// folding is limited to them (elsewhere only single-operand phis are folded), so that
+// untouched functions keep the shape go/ssa gave them.
+var onlyTouched = map[*ssa.Function]bool{}
+
 func ThreadJumps(fn *ssa.Function) int {
 	n := 0
 	for round := 0; round < 50; round++ {
@@ -115,6 +121,7 @@ func ThreadJumps(fn *ssa.Function) int {
 		if !threadOne(fn) {
 			break
 		}
+		onlyTouched[fn] = true
 		n++
 		cleanup(fn)
 	}
@@ -337,16 +344,19 @@ func threadOne(fn *ssa.Function) bool {
 					need := false
 					if p.Referrers() != nil {
 						for _, r := range *p.Referrers() {
-							if r.Block() == C {
-								continue
-							}
 							if up, isPhi := r.(*ssa.Phi); isPhi {
+								// (also a phi of C itself fed from inside the region: a loop-carried value)
 								for e, ev := range up.Edges {
-									if ev == ssa.Value(p) && domBy[k][up.Block().Preds[e]] {
+									if ev == ssa.Value(p) && e < len(up.Block().Preds) && domBy[k][up.Block().Preds[e]] {
 										need = true
 									}
 								}
-							} else if domBy[k][r.Block()] {
+								continue
+							}
+							if r.Block() == C {
+								continue
+							}
+							if domBy[k][r.Block()] {
 								need = true
 							}
 						}
@@ -600,18 +610,34 @@ func cleanup(fn *ssa.Function) {
 			b.Preds = nil
 		}
 		fn.Blocks = keep
-		// single-operand phis
+		// trivial phis: every operand is the phi itself or one and the same value
 		repl := map[ssa.Value]ssa.Value{}
 		for _, b := range fn.Blocks {
-			if len(b.Preds) != 1 {
-				continue
-			}
 			var rest []ssa.Instruction
 			for _, in := range b.Instrs {
-				if up, isPhi := in.(*ssa.Phi); isPhi && len(up.Edges) == 1 {
-					repl[up] = up.Edges[0]
-					changed = true
-					continue
+				if up, isPhi := in.(*ssa.Phi); isPhi {
+					var uniq ssa.Value
+					trivial := true
+					for _, e := range up.Edges {
+						if e == ssa.Value(up) {
+							continue
+						}
+						if uniq == nil {
+							uniq = e
+						} else if e != uniq {
+							// two constants of equal value are the same operand
+							cu, ok1 := uniq.(*ssa.Const)
+							ce, ok2 := e.(*ssa.Const)
+							if !(ok1 && ok2 && cu.Value != nil && ce.Value != nil && cu.Value.ExactString() == ce.Value.ExactString() && types.Identical(cu.Type(), ce.Type())) {
+								trivial = false
+							}
+						}
+					}
+					if trivial && uniq != nil && (len(up.Edges) == 1 || onlyTouched[fn]) {
+						repl[up] = uniq
+						changed = true
+						continue
+					}
 				}
 				rest = append(rest, in)
 			}
